@@ -465,6 +465,58 @@ func init() {
 				}, "1 if key < startKey, -1 if key > endKey, else 0")
 		}})
 
+	register(&Obligation{ID: "C07.k", Props: []string{"C07", "C03", "C17"}, Template: "order-domain",
+		Desc: "sst.(*Table).RangeContainsPrefix is (start <= prefix <= end) or start has the prefix or end has the prefix; RangePrefixCompare is 0 in those cases, 1 when the table starts after the prefix, -1 when it ends before it; AllTablesForPrefix binary-searches levels >= 1 with RangePrefixCompare and then walks forward while RangeContainsPrefix holds",
+		Run: func(r *Run) {
+			names := map[string]string{
+				"t.startKey": "start", "t.endKey": "end", "prefix": "prefix",
+				"bytes.HasPrefix(t.startKey, prefix)": "?startHas", "bytes.HasPrefix(t.endKey, prefix)": "?endHas",
+			}
+			side := func(e odEnv) bool { return e.Rank["start"] <= e.Rank["end"] }
+			r.orderDomFunc(r.P.Func("dkv/sst", "(*Table).RangeContainsPrefix"), names, side,
+				func(e odEnv) orderdom.Value {
+					return orderdom.Bool((e.Rank["start"] <= e.Rank["prefix"] && e.Rank["prefix"] <= e.Rank["end"]) || e.Bool["?startHas"] || e.Bool["?endHas"])
+				}, "start <= prefix <= end || HasPrefix(start, prefix) || HasPrefix(end, prefix)")
+			r.orderDomFunc(r.P.Func("dkv/sst", "(*Table).RangePrefixCompare"), names, side,
+				func(e odEnv) orderdom.Value {
+					switch {
+					case e.Bool["?startHas"] || e.Bool["?endHas"]:
+						return orderdom.Int(0)
+					case e.Rank["start"] > e.Rank["prefix"]:
+						return orderdom.Int(1)
+					case e.Rank["end"] < e.Rank["prefix"]:
+						return orderdom.Int(-1)
+					}
+					return orderdom.Int(0)
+				}, "0 if a bound has the prefix; 1 if start > prefix; -1 if end < prefix; else 0")
+			f := r.P.Func("dkv/sst", "(*LevelList).AllTablesForPrefix")
+			info := f.Pkg.TypesInfo
+			rpc := r.P.FuncObj("dkv/sst", "(*Table).RangePrefixCompare")
+			rcp := r.P.FuncObj("dkv/sst", "(*Table).RangeContainsPrefix")
+			okSearch, okWalk := false, false
+			ast.Inspect(f.Decl.Body, func(nd ast.Node) bool {
+				switch x := nd.(type) {
+				case *ast.CallExpr:
+					if c, ok := isCallToNamed(info, x, "slices", "BinarySearchFunc"); ok && len(c.Args) == 3 {
+						r.Site(c.Pos(), "AllTablesForPrefix binary search")
+						if sel, ok := ast.Unparen(c.Args[2]).(*ast.SelectorExpr); ok && info.Uses[sel.Sel] == types.Object(rpc) && r.isParam(f, c.Args[1], 0) {
+							okSearch = true
+						}
+					}
+				case *ast.ForStmt:
+					if x.Cond != nil && r.exprCalls(info, x.Cond, rcp) {
+						if inc, ok := x.Post.(*ast.IncDecStmt); ok && inc.Tok == token.INC {
+							okWalk = true
+						}
+					}
+				}
+				return true
+			})
+			if !okSearch || !okWalk {
+				r.Fail(f.Name()+":shape", f.Decl.Pos(), nil, "AllTablesForPrefix must find the first table with slices.BinarySearchFunc(tables, prefix, (*Table).RangePrefixCompare) and then walk forward while RangeContainsPrefix(prefix) (search=%v walk=%v)", okSearch, okWalk)
+			}
+		}})
+
 	register(&Obligation{ID: "C07.j", Props: []string{"C07", "C08", "C06"}, Template: "monotone",
 		Desc: "DB.seqNum strictly increases with every Put/Delete: each write uses seqNum+1 for the WAL and the memtable and then stores it back; no other production code writes it except restore-init in Start",
 		Run: func(r *Run) {
